@@ -353,6 +353,8 @@ def pat_truth_as_value(n, refs, lang, plat):
             r = refs.get(id(x))
             if r is not None and r.unsigned and r.size == 8 and r.value >= (1 << 63):
                 return True
+            if x.k == 'sze' and x.ch and 'raw' in x.ch[0].flags:
+                return True      # sizeof of a non-trivial expression: often without a value in cppcheck
     return False
 
 
